@@ -118,13 +118,17 @@ func itemClass(label string) string {
 // differs and the construct shape of the program (never the concrete input).
 func signature(pi *cdrive.ProgInfo, label string) string {
 	shape := ""
-	switch pi.Family {
+	fam := pi.Family
+	if i := strings.IndexByte(fam, '@'); i > 0 {
+		fam = fam[:i]
+	}
+	switch fam {
 	case "arith":
 		shape = "ops=" + pi.Tags["ops"] + " type=" + pi.Tags["type"] + " dest=" + pi.Tags["dest"]
 	default:
 		shape = strings.Join(cdrive.Constructs(methodText(pi)), ",")
 	}
-	return fmt.Sprintf("%s|%s|%s", pi.Family, itemClass(label), shape)
+	return fmt.Sprintf("%s|%s|%s", fam, itemClass(label), shape)
 }
 
 // methodText is the source without the fixed helper methods' noise: the whole
@@ -232,7 +236,7 @@ func (s *state) handle(worker int, progs []*cdrive.ProgInfo) {
 			}
 			s.mu.Unlock()
 			if c.Kind == "watchdog" {
-				s.r.Violation(fmt.Sprintf("%s|c-hang|%s", pi.Family, strings.Join(cdrive.Constructs(pi.Src), ",")),
+				s.r.Violation(fmt.Sprintf("%s|c-hang|%s", strings.SplitN(pi.Family, "@", 2)[0], strings.Join(cdrive.Constructs(pi.Src), ",")),
 					"the compiled C did not finish a program whose every execution terminates in the reference interpreter",
 					Witness{Family: pi.Family, Tags: pi.Tags, Program: pi.Src, Config: cfg.Name, Note: c.Stderr})
 				continue
@@ -433,6 +437,13 @@ func main() {
 	if r.Thorough() {
 		s.opt = cdrive.Options{Depth: 2, MaxExec: 6000, MaxStates: 4096, MaxTuples: 2048}
 		s.configs = []cdrive.Config{cdrive.AsanO1, cdrive.GccO2, cdrive.Clang}
+		// thorough: three compilers and deeper exploration for every program of
+		// the quick grammars, the thorough grammars of the families that are about
+		// cgen's lowering (loops, calls, arith), then - as far as the budget goes -
+		// the thorough io / coro grammars (coroutines are C05's main course).
+		cfg.Families = []string{"extras", "loops", "calls", "seeds", "io@quick", "coro@quick", "index@quick", "arith@quick", "refine@quick", "facts@quick",
+			"arith", "io", "coro", "index"}
+		cfg.MaxLevel["facts@quick"], cfg.MaxLevel["refine@quick"] = 2, 3
 	} else {
 		// quick: the facts trie is the C01 / C02 work-horse; for the translation only
 		// its first two levels are taken (every statement of the alphabet, alone and in pairs with the core alphabet).
